@@ -247,6 +247,13 @@ class D(Driver):
                     p = parent.get(p)
                 return CS.INITIAL.get(prop)
 
+            # declarations written in some element's style attribute of the initial document
+            style_decls = set()
+            for e0 in ET.fromstring(doc).iter():
+                for decl in (e0.get("style") or "").split(";"):
+                    if ":" in decl:
+                        k0, v0 = decl.split(":", 1)
+                        style_decls.add((k0.strip(), v0.strip()))
             extra = 0
             for x, y in zip(la, lb):
                 if x.tag != y.tag or (x.text or "").strip() != (y.text or "").strip():
@@ -256,6 +263,10 @@ class D(Driver):
                         continue
                     if key in y.attrib:
                         return None  # changed or missing in the live document: not this mechanism
+                    if (key, x.attrib[key]) in style_decls and x.tag.split("}")[-1] in ("path", "rect", "circle", "ellipse", "line", "polygon", "polyline"):
+                        # a cached shape picked up a declaration from an ancestor's not yet parsed style string
+                        extra += 1
+                        continue
                     if key not in CS.INHERITED:
                         return None
                     inh = inherited(y, key)
